@@ -820,6 +820,7 @@ func runCheck(o *Options) (int, *Evidence) {
 	}
 
 	nOb, nDis := 0, 0
+	var undecObs []*Obligation
 	var violations, undec, vac []string
 	var samples []interface{}
 	var slow []string
@@ -884,6 +885,7 @@ func runCheck(o *Options) (int, *Evidence) {
 			// a path through the head of a loop without invariants: the model is a state after an
 			// arbitrary havoc, not one a run reaches (the invariants moved away with the code)
 			undec = append(undec, "UNDISCHARGED "+n+" (not on the baseline list; "+ob.Status+")")
+			undecObs = append(undecObs, ob)
 			continue
 		}
 		rp := writeReplay(o, ob)
@@ -962,6 +964,23 @@ func runCheck(o *Options) (int, *Evidence) {
 		}
 		_ = os.MkdirAll(filepath.Join(o.verif, "specs", "baseline"), 0o755)
 		_ = os.WriteFile(filepath.Join(o.verif, "specs", "baseline", o.prop+".txt"), []byte(strings.Join(ok, "\n")+"\n"), 0o644)
+	}
+	if len(violations) == 0 && len(undecObs) > 0 {
+		// nothing is proved and nothing refuted for these obligations of the property. A run of
+		// the real code that breaks the property statement settles it: the search templates are
+		// asked, and only a failure whose message names this property counts.
+		for _, ob := range undecObs {
+			rp := writeReplay(o, ob)
+			if !rp.reproduced {
+				continue
+			}
+			b, _ := os.ReadFile(rp.path)
+			if strings.Contains(string(b), o.prop+":") || strings.Contains(string(b), o.prop+"/") || strings.Contains(string(b), "/"+o.prop) {
+				violations = append(violations, fmt.Sprintf("VIOLATION property=%s replay=%s", o.prop, rp.path))
+				ev.Violations++
+				break
+			}
+		}
 	}
 	if len(violations) > 0 {
 		for _, v := range violations {
@@ -1118,8 +1137,11 @@ func runBounded(o *Options, ev *Evidence) int {
 	var list []interface{}
 	for _, l := range strings.Split(string(b), "\n") {
 		f := strings.Split(l, "\t")
-		if len(f) != 6 || strings.HasPrefix(l, "#") || f[0] != o.prop {
+		if (len(f) != 6 && len(f) != 7) || strings.HasPrefix(l, "#") || f[0] != o.prop {
 			continue
+		}
+		if len(f) == 7 && strings.TrimSpace(f[6]) == "thorough" && o.tier != "thorough" {
+			continue // explorations of the thorough tier only
 		}
 		tmpl, mod, rel, id, what := f[1], f[2], f[3], f[4], f[5]
 		tb, err := os.ReadFile(filepath.Join(o.verif, "replay", "templates", tmpl))
